@@ -792,3 +792,7 @@ V("sp-c20-zeros-float", "C20", "silent", NO, "return lambda n: np.zeros(n)", "re
 V("sp-c19-boot-len", "C19", "silent", SE, "import numpy as np\n", "import numpy as np\n_SEMI_VERSION = 1\n", what="module constant")
 V("c08-extension-sink-by-weight-sum", "C08", "fire", UT, "            sink = len(ch(i, P)) == 0\n", "            sink = only_directed(P)[i, :].sum() == 0\n", rule="PAT.value-sensitive", what="a node whose outgoing weights cancel is taken for a sink")
 V("c08-silent-extension-sink-by-count", "C08", "silent", UT, "            sink = len(ch(i, P)) == 0\n", "            sink = not ch(i, P)\n", what="emptiness of the child set")
+VS_OLD = "        for (i, j) in itertools.combinations(pa(c, A), 2):\n            if A[i, j] == 0 and A[j, i] == 0:\n                # Ordering might be defensive here, as\n                # itertools.combinations already returns ordered\n                # tuples; motivation is to not depend on their feature\n                vstruct = (i, c, j) if i < j else (j, c, i)\n                vstructs.append(vstruct)\n"
+V("c16-silent-vs-sorted-parents", "C16", "silent", UT, VS_OLD, "        for (i, j) in itertools.combinations(sorted(pa(c, A)), 2):\n            if A[i, j] == 0 and A[j, i] == 0:\n                vstructs.append((i, c, j))\n", what="pairs taken from the sorted parent list: already i < j")
+V("c07-vs-unordered-triples", "C07", "fire", UT, VS_OLD, "        for (i, j) in itertools.combinations(pa(c, A), 2):\n            if A[i, j] == 0 and A[j, i] == 0:\n                vstructs.append((i, c, j))\n", rule="VS.condition", what="triples in set-iteration order: the same v-structure compares unequal between a PDAG and its extension (labels >= 8)")
+V("c10-vs-unordered-triples", "C10", "fire", UT, VS_OLD, "        for (i, j) in itertools.combinations(pa(c, A), 2):\n            if A[i, j] == 0 and A[j, i] == 0:\n                vstructs.append((i, c, j))\n", rule="VS.condition", what="triples in set-iteration order")
